@@ -15,15 +15,48 @@ Descriptor grammar (all JSON):
   cb   := {"k": kind, "x": exitname?, "m": mgr | null}
 """
 import contextlib
+import functools
 import re
 import threading
 import types
 
 KINDS = ["enter", "pushmgr", "pushfn", "pushmeth", "callback",
          "entera", "pushamgr", "pushafn", "pushameth", "acallback"]
-COQ_KIND = dict(enter="KEnter", pushmgr="KPushMgr", pushfn="KPushFn", pushmeth="KPushMeth", callback="KCallback",
-                entera="KEnterA", pushamgr="KPushAMgr", pushafn="KPushAFn", pushameth="KPushAMeth",
+COQ_KIND = dict(enter="KEnter", pushmgr="KPushMgr", pushfn="(KPushFn %s)", pushmeth="KPushMeth", callback="KCallback",
+                entera="KEnterA", pushamgr="KPushAMgr", pushafn="(KPushAFn %s)", pushameth="KPushAMeth",
                 acallback="KACallback")
+# what a function handed to push / push_async_exit looks like (cb field "lk"), see M_ExitStack.look
+LOOKS = ["LPlain", "LWraps", "LFree", "LWrapped", "LName", "LNameFree", "LNameWrapped"]
+
+
+def look_fn(base, is_async, lk):
+    """a user exit function around [base] sharing some marks of contextlib's _exit_wrapper closure"""
+    def bind(fn, *args, **kwds):
+        free = lk in ("LWraps", "LFree", "LNameFree")
+        if is_async:
+            if free:
+                async def _exit_wrapper(exc_type, exc, tb):
+                    return await fn(*args, **kwds)
+            else:
+                async def _exit_wrapper(exc_type, exc, tb):
+                    return await fn()
+        else:
+            if free:
+                def _exit_wrapper(exc_type, exc, tb):
+                    return fn(*args, **kwds)
+            else:
+                def _exit_wrapper(exc_type, exc, tb):
+                    return fn()
+        w = _exit_wrapper
+        if lk == "LWraps" or lk == "LWrapped":
+            w = functools.wraps(fn)(w)               # copies __name__/__qualname__, sets __wrapped__
+        elif lk == "LNameWrapped":
+            w.__wrapped__ = fn
+        elif lk in ("LFree",):
+            w.__name__ = w.__qualname__ = "bound_exit"
+        return w
+    return bind(base, "db", force=True)
+
 SYNC_KINDS = KINDS[:5]
 MGR_KINDS = ("enter", "pushmgr", "entera", "pushamgr")
 METH_KINDS = ("pushmeth", "pushameth")
@@ -351,6 +384,9 @@ class Env:
                 registered = child
             elif k in ("pushfn", "pushafn"):
                 registered = self._fresh_fn(k == "pushafn", act)
+                if c.get("lk", "LPlain") != "LPlain":
+                    self.keep.append(registered)
+                    registered = look_fn(registered, k == "pushafn", c["lk"])
                 (st.push if k == "pushfn" else st.push_async_exit)(registered)
             elif k in ("callback", "acallback"):
                 registered = self._fresh_fn(k == "acallback", act)
@@ -407,6 +443,8 @@ class Env:
                 self.fault_error = faulted.error is not None
             finally:
                 self.fault = False
+            # errors are expected in the faulted extraction; what was not hit by the fault must be whole
+            self.faulted_abstracted = abstract_stack(self, faulted, [])
             for tag in ("after-fault-1", "after-fault-2"):
                 self.observations.append(self._extract_abs(tag)[1])
 
